@@ -139,14 +139,15 @@ func probePreEpoch() {
 }
 
 var knownProbeHits *Stats
-func TestC11(t *testing.T) { runHist(t, "C11") }
-func TestC12(t *testing.T) { runHist(t, "C12") }
+
+func TestC11(t *testing.T)     { runHist(t, "C11") }
+func TestC12(t *testing.T)     { runHist(t, "C12") }
 func TestC13Hist(t *testing.T) { runHist(t, "C13") }
-func TestC15(t *testing.T) { runHist(t, "C15") }
-func TestC16(t *testing.T) { runHist(t, "C16") }
-func TestC17(t *testing.T) { runHist(t, "C17") }
+func TestC15(t *testing.T)     { runHist(t, "C15") }
+func TestC16(t *testing.T)     { runHist(t, "C16") }
+func TestC17(t *testing.T)     { runHist(t, "C17") }
 func TestC19Hist(t *testing.T) { runHist(t, "C19") }
-func TestC20(t *testing.T) { runHist(t, "C20") }
+func TestC20(t *testing.T)     { runHist(t, "C20") }
 
 // TestReplay re-runs one saved case ($VF_REPLAY) without rapid; fails if the violation reproduces.
 func TestReplay(t *testing.T) {
